@@ -1288,6 +1288,8 @@ def to_native(v, depth=0):
         return [to_native(x, depth + 1) for x in v]
     if isinstance(v, tuple) and type(v) is tuple:
         return tuple(to_native(x, depth + 1) for x in v)
+    if isinstance(v, tuple) and hasattr(v, "_fields"):
+        return type(v)(*[to_native(x, depth + 1) for x in v])
     if isinstance(v, dict) and type(v) is dict:
         return {to_native(k, depth + 1): to_native(x, depth + 1) for k, x in v.items()}
     return v
